@@ -1045,7 +1045,16 @@ class Path:
                     k = sh[1]
                     vv = as_z3int(v)
                     self.oblige('safe[or-disjoint]', 'safe', z3.And(vv >= 0, vv < theory.pow2(k)))
-                    return u + vv
+                    r = u + vv
+                    sh2 = T.shl.get(vv.get_id()) if is_z3(vv) else None
+                    if sh2 is not None:
+                        # (a << k) | (b << j) with j <= k is again a multiple of 2^j: a further `| c` with
+                        # 0 <= c < 2^j is disjoint too (three-field words  s | e | m)
+                        j = sh2[1]
+                        self.oblige('safe[or-fields-ordered]', 'safe', z3.And(as_z3int(j) >= 0, as_z3int(j) <= as_z3int(k)))
+                        T.shl[r.get_id()] = (None, j)
+                        T.keep.append(r)
+                    return r
         raise Unsupported(f'symbolic | of {a} and {b}')
 
     def binop_obj(self, op, a, b):
